@@ -141,8 +141,8 @@ B("C18", "marker renamed on the reader side", REG, 'if hasattr(function, "_decod
 B("C18", "include test inverted", REG, "if include and submod_info.name not in include:", "if include and submod_info.name in include:", "R3-filter")
 B("C18", "exclude test inverted", REG, "if exclude and submod_info.name in exclude:", "if exclude and submod_info.name not in exclude:", "R3-filter")
 B("C18", "exclude only honoured with include", REG, "if exclude and submod_info.name in exclude:", "if include and exclude and submod_info.name in exclude:", "R3-filter")
-B("C18", "os.listdir instead of os.walk", REG, "    for subdir, _, files in os.walk(directory):\n        for file_name in files:\n", "    for subdir, files in [(directory, os.listdir(directory))]:\n        for file_name in files:\n", "R4-keyword-walk")
-B("C18", "label is the full path", REG, "partial(find_keywords, file_name, keywords)", "partial(find_keywords, os.path.join(subdir, file_name), keywords)", "R4-keyword-walk")
+B("C18", "os.listdir instead of os.walk", REG, "    for subdir, dirs, files in os.walk(directory):\n        dirs.sort()  # visit sub-directories in a reproducible order\n", "    for subdir, files in [(directory, os.listdir(directory))]:\n", "R4-keyword-walk")
+B("C18", "label is the full path", REG, "partial(find_keywords, file_name, sorted(keywords))", "partial(find_keywords, os.path.join(subdir, file_name), sorted(keywords))", "R4-keyword-walk")
 B("C18", "blank lines kept", REG, '                keywords.discard(b"")\n', "", "R4-keyword-walk")
 B("C18", "text mode", REG, 'open(os.path.join(subdir, file_name), "rb")', 'open(os.path.join(subdir, file_name), "r")', "R4-keyword-walk")
 B("C18", "build_registry ignores directory", REG, "keywords = get_keywords(directory)", "keywords = get_keywords()", "R5-config")
@@ -152,10 +152,10 @@ B("C18", "empty files registered", REG, "            if not keywords:\n         
 B("C18", "directory also filters analyzers", REG, "keywords.extend(get_analyzers(include=include, exclude=exclude))", "keywords.extend(get_analyzers(include=include, exclude=exclude) if not directory else [])", "R5-config")
 B("C18", "CLI ignores --keywords", MAIN, "decoders = build_registry(args.keywords)", "decoders = build_registry()", "R5-config")
 B("C18", "decoder imported by name into another module", D + "reverse.py", "from multidecoder.hit import find_and_deobfuscate\n", "from multidecoder.hit import find_and_deobfuscate\nfrom multidecoder.decoders.concat import find_concat  # noqa: F401\n", "R2-census")
-B("C18", "hidden files skipped", REG, "        for file_name in files:\n", "        for file_name in files:\n            if file_name.startswith(\".\") or \".\" in file_name:\n                continue\n", "R4-keyword-walk")
+B("C18", "hidden files skipped", REG, "        for file_name in sorted(files):\n", "        for file_name in sorted(files):\n            if file_name.startswith(\".\") or \".\" in file_name:\n                continue\n", "R4-keyword-walk")
 N("C18", "filter merged into one condition", REG, "        if include and submod_info.name not in include:\n            continue\n        if exclude and submod_info.name in exclude:\n            continue\n", "        if (include and submod_info.name not in include) or (exclude and submod_info.name in exclude):\n            continue\n")
-N("C18", "sorted file enumeration", REG, "        for file_name in files:\n", "        for file_name in sorted(files):\n")
-N("C18", "sorted keyword list", REG, "partial(find_keywords, file_name, keywords)", "partial(find_keywords, file_name, sorted(keywords))")
+N("C18", "file enumeration through list()", REG, "        for file_name in sorted(files):\n", "        for file_name in sorted(list(files)):\n")
+N("C18", "keyword list sorted through a temporary", REG, "            keyword_map.append(partial(find_keywords, file_name, sorted(keywords)))", "            ordered = sorted(keywords)\n            keyword_map.append(partial(find_keywords, file_name, ordered))")
 N("C18", "setattr marker", REG, "    func._decoder = True\n", '    setattr(func, "_decoder", True)\n')
 B("C07", "decode_end bookkeeping under a depth guard", MD, "                decode_end = hit.end + offset\n                self.scan_node(hit, depth_limit - 1)\n", "                if depth_limit > 1:\n                    decode_end = hit.end + offset\n                    self.scan_node(hit, depth_limit - 1)\n", "R3-control-independence")
 N("C07", "skip the recursive call that would return at once", MD, "                self.scan_node(hit, depth_limit - 1)\n", "                if depth_limit > 1:\n                    self.scan_node(hit, depth_limit - 1)\n")
